@@ -3,6 +3,7 @@
 -/
 import GoFlags.Props.C07
 import GoFlags.Lemmas.Decl
+import GoFlags.Lemmas.ActivePath
 
 namespace GoFlags.C08
 open GoFlags Bytes
@@ -199,5 +200,76 @@ theorem outcome_independent_of_earlier_active_chain (E : Env) (help : HelpFn) (P
   rw [this, hi]
   simp only
   rw [prepare_forgetActive]
+
+
+/-- **After a call the active chain is the path of the commands this call selected**: it starts at
+    the parser, climbs strictly (each member was selected after the one before it), and ends at the
+    innermost command the argument vector reached — whatever links an earlier call left behind, for
+    every declaration and every argument vector. -/
+theorem active_chain_is_the_selected_path (E : Env) (help : HelpFn) (P : Parser) (argv : List Bytes)
+    (h0 : 0 < P.cmds.length) (hr : SubsInRange P) (hi : P.internalError = none) :
+    ∃ path, (parseArgs E help P argv).P.activeChain = path ∧ path.head? = some 0 ∧ path.Pairwise (· < ·) ∧
+      path.getLast? = some (parsePhase E help (prepare E P) argv).cmd := by
+  have hlen : (prepare E P).cmds.length = P.cmds.length := by
+    have := congrArg List.length (prepare_cmdSizes E P)
+    simpa [Parser.cmdSizes] using this
+  have hr' : SubsInRange (prepare E P) := by
+    intro i j hj
+    unfold Parser.subs at hj
+    rw [prepare_cmdSizes] at hj
+    rw [hlen]
+    exact hr i j hj
+  -- the start: nothing is active, the root is reached
+  have hstart : (({ P := prepare E P, args := argv } : PS).fill 0).Selected [0] := by
+    refine ⟨rfl, rfl, ?_, by simp, ?_, ?_⟩
+    · exact prepare_actives E P 0
+    · intro x hx
+      simp at hx; subst hx
+      show 0 < (prepare E P).actives.length
+      rw [Parser.actives_length, hlen]; exact h0
+    · intro i _
+      exact prepare_actives E P i
+  obtain ⟨path, hsel, _⟩ := parseLoop_selected E help (4 * argv.length + 16) _ [0] hstart hr'
+  -- the defaults phase and the required check leave selection alone
+  have hphase : (parsePhase E help (prepare E P) argv).Selected path := by
+    unfold parsePhase
+    simp only
+    split
+    · obtain ⟨hcP, hcc⟩ := checkRequired_act (clearDefaultsAll E help (parseLoop E help (4 * argv.length + 16) (({ P := prepare E P, args := argv } : PS).fill 0)).P.allORefs
+        (parseLoop E help (4 * argv.length + 16) (({ P := prepare E P, args := argv } : PS).fill 0)))
+      obtain ⟨hdP, hdc⟩ := clearDefaultsAll_act E help (parseLoop E help (4 * argv.length + 16) (({ P := prepare E P, args := argv } : PS).fill 0)).P.allORefs
+        (parseLoop E help (4 * argv.length + 16) (({ P := prepare E P, args := argv } : PS).fill 0))
+      exact (hsel.congr hdP hdc).congr (by rw [hcP]) hcc
+    · exact hsel
+  refine ⟨path, ?_, hphase.head, hphase.incr, hphase.last⟩
+  have hP : (parseArgs E help P argv).P = (parsePhase E help (prepare E P) argv).P := by
+    unfold parseArgs
+    rw [hi]
+    simp only
+    unfold finishParse
+    split <;> rfl
+  rw [hP]
+  exact activeChain_of_selected _ path hphase
+
+
+/-! non-vacuity: a parser with one subcommand meets the hypotheses -/
+def exTree : Parser := { cmds := [{ size := 2 }, { name := B "sub", size := 1 }] }
+example : 0 < exTree.cmds.length ∧ SubsInRange exTree ∧ exTree.subs 0 = [1] := by
+  refine ⟨by decide, ?_, by decide⟩
+  intro i j hj
+  have hi : i = 0 ∨ i = 1 ∨ 2 ≤ i := by omega
+  rcases hi with rfl | rfl | hi
+  · have : exTree.subs 0 = [1] := by decide
+    rw [this] at hj; simp at hj; subst hj; decide
+  · have : exTree.subs 1 = [] := by decide
+    rw [this] at hj; simp at hj
+  · exfalso
+    unfold Parser.subs childrenOf at hj
+    simp only [List.mem_filter, List.mem_range'_1] at hj
+    have : exTree.cmdSizes.getD i 1 = 1 := by
+      unfold Parser.cmdSizes exTree
+      simp [List.getD_eq_getElem?_getD]
+      rw [List.getElem?_eq_none (by simp; omega)]; rfl
+    omega
 
 end GoFlags.C08
